@@ -96,6 +96,27 @@ impl Element {
     #[verifier::external_body]
     pub fn vx_relevant(&self, f: &WeakArxmlFile) -> (r: bool) ensures r == relevant(*self, *f) { unimplemented!() }
 }
+// ---- the file-level entry points (arxmlfile.rs)
+#[derive(Clone, Copy)]
+pub struct ArxmlFile { pub opaque: u64 }
+pub struct AutosarModel { pub opaque: u64 }
+pub uninterp spec fn root_of_file(f: ArxmlFile) -> Option<Element>;
+pub uninterp spec fn weak_of(f: ArxmlFile) -> WeakArxmlFile;
+impl AutosarModel {
+    #[verifier::external_body]
+    pub fn root_element(&self) -> (r: Element) ensures r == model_root(*self) { unimplemented!() }
+}
+pub uninterp spec fn model_root(m: AutosarModel) -> Element;
+impl ArxmlFile {
+    // the model the file belongs to (None after the file was removed); its root element is root_of_file
+    #[verifier::external_body]
+    pub fn model(&self) -> (r: Result<AutosarModel, AutosarDataError>) ensures r matches Ok(m) ==> root_of_file(*self) == Some(model_root(m)), r is Err ==> root_of_file(*self) is None { unimplemented!() }
+    #[verifier::external_body]
+    pub fn downgrade(&self) -> (r: WeakArxmlFile) ensures r == weak_of(*self) { unimplemented!() }
+    // `self.0.write().version = v` (R45)
+    #[verifier::external_body]
+    pub fn vx_write_version(&self, v: AutosarVersion) { unimplemented!() }
+}
 #[verifier::external_body]
 pub fn vx_unnamed_mask(t: ElementType) -> (r: u32) { unimplemented!() }
 #[verifier::external_body]
@@ -320,8 +341,20 @@ proof {
     assert((compat_errors@.len() == n2) <==> child_compat(*self, sub_element, *file, v));
 }'''),
                        ]))
+    F_A = 'autosar-data/src/arxmlfile.rs'
+    IMPL_A = r'impl ArxmlFile'
+    fns.append(FnSpec('check_version_compatibility', F_A, impl=IMPL_A, ret='r', label='ArxmlFile.check_version_compatibility',
+               requires=['root_of_file(*self) matches Some(root) ==> subtree_consistent(root)'],
+               ensures=['root_of_file(*self) matches Some(root) ==> (r.0@.len() == 0 <==> tree_compat(root, weak_of(*self), %s)) && (r.0@.len() == 0 ==> r.1 & (%s) != 0)' % (TV, TV),
+                        'root_of_file(*self) is None ==> r.0@.len() == 0 && r.1 == 0']))
+    fns.append(FnSpec('set_version', F_A, impl=IMPL_A, ret='r',
+               body_sub=[(r'let mut file = self\.0\.write\(\);\s*file\.version = new_ver;', lambda m: 'self.vx_write_version(new_ver);', 'R45'),
+                         (r'AutosarDataError::VersionIncompatibleData \{[^{}]*\}', lambda m: 'AutosarDataError::VxOther(0)', 'R45')],
+               requires=['root_of_file(*self) matches Some(root) ==> subtree_consistent(root)'],
+               ensures=['r is Ok ==> (root_of_file(*self) matches Some(root) ==> tree_compat(root, weak_of(*self), new_ver as u32))',
+                        'r is Err ==> (root_of_file(*self) matches Some(root) && !tree_compat(root, weak_of(*self), new_ver as u32))']))
     u = Unit(name='compatwalk', prop='C17', spec=spec, fns=fns,
-             wrap={IMPL_E: 'impl Element', lookups.IMPL_ET: 'impl ElementType', lookups.IMPL_AV: 'impl AutosarVersion'},
+             wrap={IMPL_E: 'impl Element', r'impl ArxmlFile': 'impl ArxmlFile', lookups.IMPL_ET: 'impl ElementType', lookups.IMPL_AV: 'impl AutosarVersion'},
              dropped=['the element graph: an Element is an opaque handle with uninterpreted name / type / parent / attributes / content / sub-elements (the real accessors take the lock); the read guard is a value with the two lists; error payloads opaque (R45)',
                       'specification lookups are leaves with the contracts proved in unit lookups; CharacterData::check_version_compatibility is a leaf with a clause of the contract proved in unit chardata (`valid` uninterpreted)',
                       'ASSUMED: single-threaded reading (parent() succeeds), tree well-founded (C03), model consistency as a precondition (type_consistent), table fact crosstype (ground check)'])
